@@ -25,8 +25,8 @@ func distinctVariants(vs []keyVariant) []keyVariant {
 }
 
 // TestC19Product: for a drawn key, the full product transport x canonical kind
-// x every key variant, once as a single request and once sandwiched between
-// two keyed calls in a batch. Same oracle as TestC19Gate; the random parts
+// x every key variant, once as a single request and once in a batch with two keyed
+// calls (element first / middle / last in turn). Same oracle as TestC19Gate; the random parts
 // (ids, member order, variant details) are drawn.
 func TestC19Product(t *testing.T) {
 	kinds := []string{"call0", "call1", "callctx", "void", "fail", "modules", "sub", "unsub-live", "emit", "unknown-method", "no-underscore"}
@@ -47,12 +47,20 @@ func TestC19Product(t *testing.T) {
 					for _, batch := range []bool{false, true} {
 						m := &message{Transport: tr, Batch: batch, Cycle: vi%2 == 0}
 						free := []int{0, 1}
-						if batch {
-							m.Elems = append(m.Elems, buildElem(t, key, tr, "call0", exact, 0, false, &free))
-						}
-						m.Elems = append(m.Elems, buildElem(t, key, tr, kind, kv, 1, false, &free))
-						if batch {
-							m.Elems = append(m.Elems, buildElem(t, key, tr, "call1", exact, 2, false, &free))
+						x := buildElem(t, key, tr, kind, kv, 1, false, &free)
+						if batch { // two keyed calls around / before / after the element, in turn
+							a := buildElem(t, key, tr, "call0", exact, 0, false, &free)
+							b := buildElem(t, key, tr, "call1", exact, 2, false, &free)
+							switch vi % 3 {
+							case 0:
+								m.Elems = []elemSpec{a, x, b}
+							case 1:
+								m.Elems = []elemSpec{a, b, x}
+							default:
+								m.Elems = []elemSpec{x, a, b}
+							}
+						} else {
+							m.Elems = []elemSpec{x}
 						}
 						for i := range m.Elems {
 							m.Elems[i].analyse(key)
